@@ -225,6 +225,18 @@ Definition lview_of_fnode (ino : N) (n : fnode) : lview :=
   mkLv (fn_mode n) (Some (fn_uid n)) (Some (fn_gid n)) (fn_mtime n) ino (fn_nlink n) (fn_xattr n)
        (lkind_of_payload (fn_payload n)).
 
+(* the subtrees below the entries of a directory, given the function for one inode number *)
+Definition spec_ents (st : N -> option ltree) : list (list N * N) -> option (list (list N * ltree)) :=
+  fix go (l : list (list N * N)) : option (list (list N * ltree)) :=
+    match l with
+    | [] => Some []
+    | (nm, c) :: r =>
+      match st c, go r with
+      | Some s, Some rest => Some ((nm, s) :: rest)
+      | _, _ => None
+      end
+    end.
+
 (* the tree below inode number ino, unfolded along the directory entries *)
 Fixpoint spec_tree (t : fstree) (fuel : nat) (ino : N) : option ltree :=
   match fuel with
@@ -235,15 +247,7 @@ Fixpoint spec_tree (t : fstree) (fuel : nat) (ino : N) : option ltree :=
     | Some n =>
       match fn_payload n with
       | PDir _ ch =>
-        match (fix go (l : list (list N * N)) : option (list (list N * ltree)) :=
-                 match l with
-                 | [] => Some []
-                 | (nm, c) :: r =>
-                   match spec_tree t f c, go r with
-                   | Some s, Some rest => Some ((nm, s) :: rest)
-                   | _, _ => None
-                   end
-                 end) ch with
+        match spec_ents (spec_tree t f) ch with
         | Some ents => Some (LT (lview_of_fnode ino n) ents)
         | None => None
         end
@@ -262,11 +266,12 @@ Section Read.
   Variable itbl dtbl : list N.  (* the two metadata areas as the super block delimits them *)
   Variable ids : list N.        (* the id table *)
 
-  (* the uncompressed metadata stream from in-block offset off of the block stored at byte pos of tbl *)
+  (* the uncompressed metadata stream from in-block offset off of the block stored at byte pos of tbl
+     (off = size of the block: the stream continues with the next block, as sqfs_meta_reader_read does) *)
   Definition stream_at (tbl : list N) (pos off : N) : option (list N) :=
     match parse_blocks uncompress (length tbl) tbl pos with
     | Some ((c, _, _) :: r) =>
-      if off <? lenN c then Some (dropN off (c ++ concat (map (fun b => fst (fst b)) r))) else None
+      if off <=? lenN c then Some (dropN off (c ++ concat (map (fun b => fst (fst b)) r))) else None
     | _ => None
     end.
 
@@ -304,6 +309,19 @@ Section Read.
     (lv_ino v =? de_num e) &&
     match get_type (lv_mode v) with Some ty => ty =? de_type e | None => false end.
 
+  (* the subtrees below the entries of a listing, given the function that reads the tree behind a reference *)
+  Definition read_ents (rt : N -> option ltree) : list dent -> option (list (list N * ltree)) :=
+    fix go (l : list dent) : option (list (list N * ltree)) :=
+      match l with
+      | [] => Some []
+      | e :: r =>
+        match rt (de_ref e), go r with
+        | Some (LT v sub), Some rest =>
+          if entry_matches e v then Some ((de_name e, LT v sub) :: rest) else None
+        | _, _ => None
+        end
+      end.
+
   Fixpoint read_tree (fuel : nat) (ref : N) : option ltree :=
     match fuel with
     | O => None
@@ -317,16 +335,7 @@ Section Read.
           match read_listing sb off sz with
           | None => None
           | Some es =>
-            match (fix go (l : list dent) : option (list (list N * ltree)) :=
-                     match l with
-                     | [] => Some []
-                     | e :: r =>
-                       match read_tree f (de_ref e), go r with
-                       | Some (LT v sub), Some rest =>
-                         if entry_matches e v then Some ((de_name e, LT v sub) :: rest) else None
-                       | _, _ => None
-                       end
-                     end) es with
+            match read_ents (read_tree f) es with
             | Some ents => Some (LT (lview_of_inode ids i) ents)
             | None => None
             end
